@@ -201,7 +201,7 @@ class GeoStoreMachine(StoreMachine):
             elif kd == 'W':
                 ch = [R(3), R(3)]
             elif kd == 'R':
-                ch = [R(3), R(4)]
+                ch = [R(3), R(8)]
             elif kd == 'SHIPPED':
                 ch = [R(3), R(16), R(big)]
             else:
@@ -227,7 +227,11 @@ class GeoStoreMachine(StoreMachine):
         obj.write(self.path(name + '.geo'))
         obj.filename = ''
 
-    def read(self, name, cfg):
+    def read(self, name, cfg, reuse=None):
+        if reuse is not None:
+            reuse.read(self.path(name + '.geo'))
+            reuse.filename = ''
+            return reuse
         g = self.mg.mulgrid(self.path(name + '.geo'))
         g.filename = ''
         return g
@@ -453,7 +457,13 @@ class GeoStoreMachine(StoreMachine):
             cfg = {'unit': geo.unit_type, 'conv': geo.convention, 'atm': geo.atmosphere_type}
             self.do_write(slot, self.NAMES[ni], cfg, fault)
         elif kind == 'R':
-            self.do_read(self.pick_name(ch[0]), None if ch[1] == 3 else ch[1], fault)
+            reuse = None
+            slot = ch[1]
+            if slot % 8 >= 4 and self.objs:
+                slot = self.pick_slot(slot)
+                reuse = self.objs[slot]
+            self.do_read(self.pick_name(ch[0]), None if slot % 4 == 3 else slot % 4, fault,
+                         reuse=reuse)
         elif kind == 'CYCLE':
             self.do_cycle(self.pick_name(ch[0]))
         elif kind == 'FOREIGN':
